@@ -12,7 +12,10 @@ def tonl_d(ann):
          ["func TF(n int) int { return n }", "", "// TM is a helper."] + m + \
          ["func (s S) TM(n int) int { return n }", "", "func PF(n int) int { return n }", "",
           "func (s S) PM(n int) int { return n }", "", "// hid is unexported; Default hands out a value of it.", "type hid struct{}", "",
-          "var Default hid", "", "// HTM is a helper."] + m + ["func (h hid) HTM(n int) int { return n }", ""]
+          "var Default hid", "", "// HTM is a helper."] + m + ["func (h hid) HTM(n int) int { return n }", "",
+          "// MkS is a helper that hands out an S."] + f + ["func MkS() S { return S{} }", "",
+          ] + (["// TTM is a helper method of the helper type; it exists only as a @testonly method (its receiver names TT in a non-test file).",
+                "// @testonly", "func (t TT) TTM(n int) int { return n }", ""] if ann["meth"] else [])
     return "\n".join(ls) + "\n"
 
 
@@ -71,6 +74,8 @@ def build_tonl(sc, sid):
                 "callM": "_ = s%d.TM(%d)" % (n, n),
                 "callMvar": "_ = gs.TM(%d)" % n,
                 "callHM": "_ = %sDefault.HTM(%d)" % (q, n),
+                "chainFM": "_ = %sMkS().TM(%d)" % (q, n),
+                "chainLM": "_ = %sTT{X: %d}.TTM(%d)" % (q, n, n),
                 "litTG": "_ = %sTG{X: %d}" % (q, n),
                 "callFlit": "_ = %sTF(%sTT{X: %d}.X)" % (q, q, n),
                 "callPF": "_ = %sPF(%d)" % (q, n),
@@ -128,6 +133,8 @@ def build_tonl(sc, sid):
     if pkg == "d":
         pkgs[0]["files"] += gofiles
     else:
+        # the first file of the using package imports only "unsafe": the first import of the package carries no annotations
+        gofiles.insert(0, {"name": "u/a0_sizes.go", "src": 'package u\n\nimport "unsafe"\n\nvar _ = unsafe.Sizeof(0)\n'})
         pkgs.append({"path": "m/u", "name": "u", "files": gofiles})
     expect = set()
     for f, i, code in sc["expect"]:
@@ -264,6 +271,7 @@ def build_pkgo(sc, sid):
     if pkg == "d":
         pkgs[0]["files"] += gofiles
     else:
+        gofiles.insert(0, {"name": "%s/a0_sizes.go" % pdir, "src": 'package %s\n\nimport "unsafe"\n\nvar _ = unsafe.Sizeof(0)\n' % pname})
         pkgs.append({"path": ppath, "name": pname, "files": gofiles})
     expect = set()
     for f, i, code in sc["expect"]:
